@@ -22,6 +22,7 @@ only number literal) and, with make_case(body, rich=<salt>), the C13 one
 (Render.rich_leaf: every compound assignment of the grammar on `c<id>` /
 `q<id>[..]`, the id is in the target's name)."""
 import functools
+import re
 
 INIT_PATTERNS = {}
 
@@ -388,6 +389,8 @@ def parse_blocks(text):
         for it in items_s.split():
             if it[0] == 'L':
                 items.append(('L', it[1:]))
+            elif it == 'P':
+                items.append(('P', None))      # a phi statement (after into_ssa)
             else:
                 c, tf = it[1:].split(">")
                 t, f = tf.split("/")
@@ -413,9 +416,32 @@ def parse_tree(text):
 # oracles (the spec side, evaluated on the implementation's output)
 # --------------------------------------------------------------------------
 
-def wellformed_failures(blocks, depth_of):
+def split_cfg_line(impl):
+    """'cfg <before> # ssa <after> # api <ok|mismatches>' -> (before, after, api) or None."""
+    if not (impl.startswith("cfg ") and " # ssa " in impl):
+        return None
+    before, rest = impl[4:].split(" # ssa ", 1)
+    after, _, api = rest.partition(" # api ")
+    return before, after, api or "not-printed"
+
+
+def strip_phis(text):
+    """The block list text without its phi items (the model Model.Lift has no phis)."""
+    def items(m):
+        return "[" + " ".join(x for x in m.group(1).split(" ") if x != "P") + "] p["
+    return re.sub(r"\[([^\]]*)\] p\[", items, text)
+
+
+def wellformed_failures(blocks, depth_of, nest=None):
     """The clauses of C12 on a block list of the implementation; depth_of maps
     every leaf/condition id of the source to its syntactic loop nesting.
+    With `nest` (a list of (id, depth) in source order, ids being any strings -
+    the liftfull stage names a statement by its meta, which several statements
+    may share) the last clause is the equality of lists of
+    C12_loop_depth_is_nesting: the items of the graph in block order, each with
+    the depth of its block, are `nest`.
+    Phi statements (items ('P', None), present after into_ssa only) must come
+    first in their block.
     Returns a list of violated clauses (strings)."""
     bad = []
     n = len(blocks)
@@ -457,6 +483,9 @@ def wellformed_failures(blocks, depth_of):
         for k, it in enumerate(its):
             if it[0] == 'C' and k != len(its) - 1:
                 bad.append("branch at position %d of block %d is not last" % (k, i))
+            if it[0] == 'P' and k > 0 and its[k - 1][0] != 'P':
+                bad.append("phi statement at position %d of block %d comes after a statement that is not a phi "
+                           "(phis must come first)" % (k, i))
         has_branch = bool(its) and its[-1][0] == 'C'
         if has_branch:
             _, _, t, f = its[-1]
@@ -481,9 +510,21 @@ def wellformed_failures(blocks, depth_of):
             if j not in seen and j != i and j < i:
                 bad.append("block %d dominates block %d" % (i, j))
     # loop depth and every item exactly once
+    if nest is not None:
+        got = [(it[1], b["depth"]) for b in blocks for it in b["items"] if it[0] != 'P']
+        if got != list(nest):
+            k = 0
+            while k < min(len(got), len(nest)) and got[k] == tuple(nest[k]):
+                k += 1
+            bad.append("the statements of the graph in block order with the loop depth of their block differ from the "
+                       "statements of the source in source order with their syntactic loop nesting at position %d: graph %s, "
+                       "source %s (%d / %d items)" % (k, got[k:k + 2], list(nest[k:k + 2]), len(got), len(nest)))
+        return bad
     ids = []
     for i, b in enumerate(blocks):
         for it in b["items"]:
+            if it[0] == 'P':
+                continue
             ident = it[1]
             ids.append(ident)
             if not ident.isdigit() or int(ident) not in depth_of:
@@ -668,10 +709,13 @@ def forms_compare(case, impl, model):
 def cfg_compare(case, impl, model):
     """None if the implementation's block lists (before and after SSA) equal
     the model's, else a dict describing the disagreement."""
-    if impl.startswith("cfg ") and " # ssa " in impl:
-        before, after = impl[4:].split(" # ssa ", 1)
+    parts = split_cfg_line(impl)
+    if parts is not None:
+        before, after, _api = parts
         m = model[4:] if model.startswith("cfg ") else model
-        if before == m and after in (m, "skipped"):
+        # the phi statements of the graph after into_ssa are no statements of the model (checked by the clause
+        # "phis first" of wellformed_failures instead)
+        if before == m and (after == "skipped" or strip_phis(after) == m):
             return None
     return {"src": case["src"], "sx": case["sx"], "impl": impl, "model": model}
 
